@@ -443,8 +443,68 @@ func (an *An) base(v ssa.Value, facts []ir.Fact) AV {
 		return an.binop(x, facts)
 	case *ssa.Call:
 		return an.call(x, facts)
+	case *ssa.Extract:
+		// one result of a small repository helper that returns a tuple (value, error)
+		if c, ok := x.Tuple.(*ssa.Call); ok {
+			if a, ok := an.inlineResult(c, x.Index, facts); ok {
+				if a.Exact != nil {
+					return a
+				}
+				// keep the identity of the value as a symbol (facts and hypotheses may name it) and add the bounds
+				e := an.opaque(v)
+				e.Lo = append(e.Lo, a.Lo...)
+				e.Hi = append(e.Hi, a.Hi...)
+				e.NaN = e.NaN || a.NaN
+				return e
+			}
+		}
 	}
 	return an.opaque(v)
+}
+
+// inlineResult evaluates result #idx of a call to an inlinable repository function in place:
+// the join over its returns, with the parameters bound to the ranges of the arguments.
+func (an *An) inlineResult(c *ssa.Call, idx int, facts []ir.Fact) (AV, bool) {
+	args := c.Call.Args
+	ci := ir.Callee(c)
+	if ci.Static == nil || an.Inline == nil || !an.Inline(ci.Static) || len(ci.Static.Blocks) == 0 || ci.Closure != nil {
+		return AV{}, false
+	}
+	if idx >= ci.Static.Signature.Results().Len() {
+		return AV{}, false
+	}
+	for p := an; p != nil; p = p.parent {
+		if p.Fn == ci.Static {
+			return AV{}, false
+		}
+	}
+	sub := New(ci.Static)
+	sub.parent = an
+	sub.Name, sub.Assume, sub.Inline, sub.OpaqueFloatMayBeNaN, sub.NonNegative, sub.AssumeNegativeDiff = an.Name, an.Assume, an.Inline, an.OpaqueFloatMayBeNaN, an.NonNegative, an.AssumeNegativeDiff
+	sub.depth = an.depth
+	sub.params = map[*ssa.Parameter]AV{}
+	for i, p := range ci.Static.Params {
+		if i < len(args) {
+			sub.params[p] = an.Eval(args[i], facts)
+		}
+	}
+	var as []AV
+	for _, r := range ir.Returns(ci.Static) {
+		if idx >= len(r.Results) {
+			return AV{}, false
+		}
+		vias := []*ssa.BasicBlock{nil}
+		if phi, ok := ir.Resolve(r.Results[idx]).(*ssa.Phi); ok && phi.Block() == r.Block() {
+			vias = r.Block().Preds
+		}
+		for _, via := range vias {
+			as = append(as, sub.Eval(ir.ResultVia(r, idx, via), FactsAt(r.Block(), via)))
+		}
+	}
+	if len(as) == 0 {
+		return AV{}, false
+	}
+	return join(as), true
 }
 
 func intValued(l Lin) bool {
@@ -714,37 +774,9 @@ func (an *An) call(c *ssa.Call, facts []ir.Fact) AV {
 		}
 		return r
 	}
-	ci := ir.Callee(c)
-	if ci.Static != nil && an.Inline != nil && an.Inline(ci.Static) && len(ci.Static.Blocks) > 0 && ci.Closure == nil {
-		for p := an; p != nil; p = p.parent {
-			if p.Fn == ci.Static {
-				return an.opaque(c)
-			}
-		}
-		sub := New(ci.Static)
-		sub.parent = an
-		sub.Name, sub.Assume, sub.Inline, sub.OpaqueFloatMayBeNaN, sub.NonNegative, sub.AssumeNegativeDiff = an.Name, an.Assume, an.Inline, an.OpaqueFloatMayBeNaN, an.NonNegative, an.AssumeNegativeDiff
-		sub.depth = an.depth
-		sub.params = map[*ssa.Parameter]AV{}
-		for i, p := range ci.Static.Params {
-			if i < len(args) {
-				sub.params[p] = an.Eval(args[i], facts)
-			}
-		}
-		if ci.Static.Signature.Results().Len() == 1 {
-			var as []AV
-			for _, r := range ir.Returns(ci.Static) {
-				vias := []*ssa.BasicBlock{nil}
-				if phi, ok := ir.Resolve(r.Results[0]).(*ssa.Phi); ok && phi.Block() == r.Block() {
-					vias = r.Block().Preds
-				}
-				for _, via := range vias {
-					as = append(as, sub.Eval(ir.ResultVia(r, 0, via), FactsAt(r.Block(), via)))
-				}
-			}
-			if len(as) > 0 {
-				return join(as)
-			}
+	if ir.Callee(c).Static != nil && ir.Callee(c).Static.Signature.Results().Len() == 1 {
+		if a, ok := an.inlineResult(c, 0, facts); ok {
+			return a
 		}
 	}
 	return an.opaque(c)
